@@ -190,6 +190,10 @@ def classify(callee, crate="ta", local_traits=()):
         return ("forbidden", name)
     if UNBOUNDED_RE.search(both):
         return ("unknown", "unbounded iterator source " + name)
+    # ... or an unbounded source as the *type* something is instantiated at: `(n..).last()`, `repeat(x).count()`
+    raw_all = (callee.get("path_args") or "") + " " + str((callee.get("self_ty") or {}).get("s", "")) + " " + " ".join(str(a_.get("s", "")) for a_ in (callee.get("targs") or []))
+    if re.search(r"\bRangeFrom\b|\bRepeat\b|\bRepeatWith\b|\bCycle\b|\bSuccessors\b|\bFromFn\b|\bRepeatN\b", raw_all):
+        return ("unknown", "a std function instantiated at an unbounded iterator type: " + name)
     raw = callee.get("path_args") or ""
     if re.search(r"Iterator(>)?::(sum|product)::<(usize|u\d+|i\d+|isize)>$", raw) or re.search(r"(Sum|Product)<.*>.*for (usize|u\d+|i\d+|isize)>::(sum|product)", raw):
         return ("may_panic", "int-sum")   # integer sums overflow under overflow checks
